@@ -29,22 +29,21 @@ def run():
                 bad.append(m)
                 print(txt[-1500:])
         print("setup: %d TLA+ modules parsed, %d with errors %s" % (len(mods), len(bad), bad))
-        ok = ok and not bad
-        # warm the Go build cache: build the repo and every harness test binary once
+        # a module that does not parse makes the checks that use it exit 2; setup itself only needs the tools
+        # warm the Go build cache: the repository and the test dependencies of the packages the harnesses live in
         env = ctx.go_env()
         p = subprocess.run(["go", "build", "./..."], cwd=ctx.repo, env=env)
         ok = ok and p.returncode == 0
         hroot = os.path.join(core.VERIF, "harness", "inpkg")
+        pkgs = []
         for root, dirs, files in os.walk(hroot):
-            gof = [f for f in files if f.endswith(".go")]
-            if not gof:
-                continue
-            pkg = os.path.relpath(root, hroot)
-            try:
-                ctx.go_build_test(pkg, None)
-            except core.Undecided as e:
-                print("setup: harness for %s does not build: %s" % (pkg, str(e)[:2000]))
-                ok = False
+            if any(f.endswith(".go") for f in files):
+                pkgs.append("./" + os.path.relpath(root, hroot))
+        if pkgs:
+            p = subprocess.run(["go", "test", "-vet=off", "-tags", "verif", "-count=1", "-run", "^$"] + sorted(pkgs),
+                               cwd=ctx.repo, env=env, stdout=subprocess.PIPE, stderr=subprocess.STDOUT)
+            print("setup: warmed test builds of %d packages (rc=%d)" % (len(pkgs), p.returncode))
+            ok = ok and p.returncode == 0
     finally:
         ctx.cleanup()
     print("setup:", "ok" if ok else "FAILED")
